@@ -18,22 +18,22 @@ import (
 // H is a (revision, height) pair ordered numerically.
 type H struct{ R, N uint64 }
 
-func (h H) Less(o H) bool   { return h.R < o.R || (h.R == o.R && h.N < o.N) }
-func (h H) String() string  { return strconv.FormatUint(h.R, 10) + "-" + strconv.FormatUint(h.N, 10) }
+func (h H) Less(o H) bool           { return h.R < o.R || (h.R == o.R && h.N < o.N) }
+func (h H) String() string          { return strconv.FormatUint(h.R, 10) + "-" + strconv.FormatUint(h.N, 10) }
 func (h H) IBC() clienttypes.Height { return clienttypes.NewHeight(h.R, h.N) }
 func hOf(x clienttypes.Height) H    { return H{x.RevisionNumber, x.RevisionHeight} }
 
 // Parsed is the harness's reading of one client's prefix store `clients/<id>/`.
 type Parsed struct {
-	Raw      map[string][]byte // key without the client prefix
-	CSBytes  []byte
-	CS       *ibctm.ClientState // nil when absent / not a tendermint client state
-	Cons     map[H][]byte
-	ConsDec  map[H]*ibctm.ConsensusState
-	PT       map[H][]byte
-	PH       map[H][]byte
-	Iter     []IterEntry // in raw byte order of the iteration keys (= store iteration order)
-	Other    map[string][]byte
+	Raw       map[string][]byte // key without the client prefix
+	CSBytes   []byte
+	CS        *ibctm.ClientState // nil when absent / not a tendermint client state
+	Cons      map[H][]byte
+	ConsDec   map[H]*ibctm.ConsensusState
+	PT        map[H][]byte
+	PH        map[H][]byte
+	Iter      []IterEntry // in raw byte order of the iteration keys (= store iteration order)
+	Other     map[string][]byte
 	Malformed []string
 }
 
@@ -207,7 +207,9 @@ func statusOK(model, got string) bool {
 }
 
 // definitelyNotActive: the model excludes Active.
-func definitelyNotActive(model string) bool { return model == stFrozen || model == stExpired || model == stUnknown }
+func definitelyNotActive(model string) bool {
+	return model == stFrozen || model == stExpired || model == stUnknown
+}
 
 func beKey(h H) []byte {
 	b := make([]byte, 16)
